@@ -16,6 +16,7 @@ ENTRY = dict(
     lean_modules=["Bpmn.Props.C19", "Bpmn.Props.C19Current"],
     families=["c19"],
     exhaustive=False,
+    multi_seed=False,   # the systematic, exhaustive and grid parts do not depend on the seed
     rule=("builder scripts on the real ProcessBuilder/DefinitionBuilder: every length 0..12 for every activity type "
           "(13 types implementing ActivityInterface) with and without preset ids at the documented default "
           "configuration; every sequence of length <= 2 over type x preset (exhaustive); the configuration grid "
@@ -26,12 +27,22 @@ ENTRY = dict(
           "predicates are evaluated on the implementation's output, the definitions go through xml.Marshal + "
           "schema.Parse and must describe the same, and definitions made of the nine task types are run on the "
           "engine (built or re-parsed) answering every task: requests must be the added activities in insertion "
-          "order; plus an id stress (consecutive RandBytes calls, ids inside many built definitions); "
+          "order; plus an id stress (300 000 / 2 000 000 consecutive RandBytes(7) calls: repeats beyond what an ideal "
+          "generator over 62^7 values gives with probability < 1e-4 — 2 in quick, 7 in thorough — are a failure; "
+          "ids inside 300 / 3000 built three-process definitions: every repeat is a failure); "
           "non-trivial = at least one activity added; distinct = distinct canonical case"),
     trusted_base=TB_COMMON + [
         "modelled, not verified: float64 arithmetic of the layout (Int in units of 1/8; the driver rejects "
         "configurations off the exact grid), sort.Slice (unique result for a strict total order), math.Round, "
         "encoding/xml, the engine (observed through task traces and CeaseFlowTrace)"],
+    explanation=("proved for the model, all script lengths, all injective id oracles, all configurations: ids of a built "
+                 "process unique; processes built one after the other share no id; flow ends exist and list the flow; "
+                 "start without incoming, end without outgoing; one shape per flow node, one edge per flow; edges "
+                 "start/end on the border of their shapes; distinct nodes of one level get distinct rows (any graph) and "
+                 "shapes never overlap when gaps >= sizes (within and across processes). Negative side: "
+                 "C19_counterexample_activity_not_stored (AddActivity drops AdHocSubProcess/Transaction/Activity), "
+                 "duplicate_generated_id_witness (a repeating oracle gives equal ids). Tested only: XML round trip, engine "
+                 "run, uniqueness of diagram/shape/edge/participant ids (their generation is modelled and diffed)."),
     assumptions=[
         "activities handed to AddActivity are fresh objects (no incoming/outgoing flows yet) and preset ids are "
         "pairwise distinct and differ from generated ids",
